@@ -316,11 +316,17 @@ void mmd_export_link_html(DString * out, const char * source, token * text, link
 	}
 
 	while (a) {
-		print_const(" ");
-		print(a->key);
-		print_const("=\"");
-		mmd_print_string_html(out, a->value, false, false);
-		print_const("\"");
+		if ((strcmp(a->key, "href") == 0) ||
+				((strcmp(a->key, "title") == 0) && link->title && (link->title[0] != '\0'))) {
+			// Already printed above -- an attribute can appear only once
+		} else {
+			print_const(" ");
+			print(a->key);
+			print_const("=\"");
+			mmd_print_string_html(out, a->value, false, false);
+			print_const("\"");
+		}
+
 		a = a->next;
 	}
 
@@ -353,6 +359,7 @@ void mmd_export_image_html(DString * out, const char * source, token * text, lin
 	attr * a = link->attributes;
 	char * width = NULL;
 	char * height = NULL;
+	char * style = NULL;
 
 	// Compatibility mode doesn't allow figures
 	if (scratch->extensions & EXT_COMPATIBILITY) {
@@ -456,6 +463,14 @@ void mmd_export_image_html(DString * out, const char * source, token * text, lin
 				free(height);
 				height = a->value;
 			}
+		} else if (strcmp(a->key, "style") == 0) {
+			// Printed below, together with a height/width that needs a style
+			style = a->value;
+		} else if ((strcmp(a->key, "src") == 0) ||
+				   ((strcmp(a->key, "alt") == 0) && text) ||
+				   ((strcmp(a->key, "id") == 0) && link->label && !(scratch->extensions & EXT_COMPATIBILITY)) ||
+				   ((strcmp(a->key, "title") == 0) && link->title && (link->title[0] != '\0'))) {
+			// Already printed above -- an attribute can appear only once
 		} else {
 			print_const(" ");
 			print(a->key);
@@ -467,8 +482,16 @@ void mmd_export_image_html(DString * out, const char * source, token * text, lin
 		a = a->next;
 	}
 
-	if (height || width) {
+	if (height || width || style) {
 		print_const(" style=\"");
+
+		if (style) {
+			mmd_print_string_html(out, style, false, false);
+
+			if ((height || width) && (style[0] != '\0') && (style[strlen(style) - 1] != ';')) {
+				print_const(";");
+			}
+		}
 
 		if (height) {
 			printf("height:%s;", height);
